@@ -493,6 +493,14 @@ func raCorpus(engine string) []Case {
 		a, b := "/u/"+pr[0], "/u/"+pr[1]
 		collide = append(collide, Case{Ops: []string{"new 8 4 -", regOp(1, nil, "/u/{id}", false), q(g, a), q(g, b), q(g, a), sv(g, b), sv(g, a), "ckeys"}, Tag: "corpus-collide"})
 	}
+	// long cache keys: a cached request whose key ("GET" + path) is exactly 32 / 64 / 128 / 256 bytes long, then requests
+	// that extend that path by 1-3 bytes or by a further segment (another route, or no route at all), and back
+	for _, n := range []int{32, 64, 128, 256} {
+		id := strings.Repeat("0123456789abcdef", 17)[:n-len("GET/r/")]
+		a := "/r/" + id
+		collide = append(collide, Case{Ops: []string{"new 8 4 -", regOp(1, nil, "/r/{id}", false), regOp(2, nil, "/r/{id}/edit", false),
+			q(g, a), q(g, a+"x"), q(g, a+"xyz"), q(g, a), sv(g, a+"/edit"), sv(g, a), sv(g, a+"/edit"), sv(g, a+"/none"), q(g, a[:len(a)-1]), "ckeys"}, Tag: "corpus-longkey"})
+	}
 	switch engine {
 	case "route":
 		return append(append([]Case{overlap("new 0 0 -"), gv("new 0 0 -"), gv("new 4 0 -")}, collide...), raCorpus2(engine)...)
